@@ -161,38 +161,58 @@ mutual
     | 0, _, _, _ => some (.raw "fuel")
     | fuel + 1, s, path, c =>
       if !featureEnabled s c then none else
-      match validateFields W fuel s path c s.fields with
+      match validateFields W fuel path c s.fields with
       | some e => some e
       | none =>
         if s.validators.all (fun v => schemaValidator v c) then none else some (.validation path)
-  def validateFields (W : World) : Nat → Schema → String → Cfg → List (String × SField) → Option CErr
-    | _, _, _, _, [] => none
-    | fuel, s, path, c, (k, f) :: rest =>
-      let here : Option CErr :=
-        match f with
-        | .leaf fs m =>
-          if m.isInclude then none else
-          (match c.get k with
-           | some (.val v) => (match validate W.fe.toEnv fs v with
-               | .ok _ => none
-               | .error e => some (fieldErr path k e))
-           | _ => none)
-        | .sub s' => (match c.get k with
-            | some (.node sub) => validateCfg W fuel s' (joinPath path k) sub
-            | _ => none)
-        | .ctype s' _ => (match c.get k with
-            | some (.node sub) => validateCfg W fuel s' (joinPath path k) sub
-            | _ => none)
-        | .cfgList _ _ req _ => (match c.get k with
-            | some (.nodes cs) => if req && cs.isEmpty then some (.validation (joinPath path k)) else none
-            | some (.val .none) => if req then some (.validation (joinPath path k)) else none
-            | _ => none)
-        | .virtual _ _ => none
-        | .method => none
-      match here with
+  /-- what `_validate_field` finds wrong with one field -/
+  def fieldProblem (W : World) : Nat → String → Cfg → String → SField → Option CErr
+    | _, path, c, k, .leaf fs m =>
+      if m.isInclude then none else
+      (match c.get k with
+       | some (.val v) => (match validate W.fe.toEnv fs v with
+           | .ok _ => none
+           | .error e => some (fieldErr path k e))
+       | _ => none)
+    | fuel, path, c, k, .sub s' => (match c.get k with
+        | some (.node sub) => validateCfg W fuel s' (joinPath path k) sub
+        | _ => none)
+    | fuel, path, c, k, .ctype s' _ => (match c.get k with
+        | some (.node sub) => validateCfg W fuel s' (joinPath path k) sub
+        | _ => none)
+    | _, path, c, k, .cfgList _ _ req _ => (match c.get k with
+        | some (.nodes cs) => if req && cs.isEmpty then some (.validation (joinPath path k)) else none
+        | some (.val .none) => if req then some (.validation (joinPath path k)) else none
+        | _ => none)
+    | _, _, _, _, .virtual _ _ => none
+    | _, _, _, _, .method => none
+  /-- the loop over the schema's fields (include, virtual and instance-method fields are skipped by `fieldProblem`) -/
+  def validateFields (W : World) : Nat → String → Cfg → List (String × SField) → Option CErr
+    | _, _, _, [] => none
+    | fuel, path, c, (k, f) :: rest =>
+      match fieldProblem W fuel path c k f with
       | some e => some e
-      | none => validateFields W fuel s path c rest
+      | none => validateFields W fuel path c rest
 end
+
+/-- what `load_tree` does with one `(key, value)` before `_set_value`: leaf fields bound to a set environment variable are
+    skipped (`none`); leaf values are decoded with `to_python` (errors wrapped for that field); the rest is passed on -/
+def decodeEntry (W : World) (s : Schema) (path : String) (c : Cfg) (k : String) (value : Val) : Option (Except CErr Arg) :=
+  match getField s c k with
+  | .declared (.leaf f m) =>
+    if (envValue W m).isSome then none
+    else (match toPython W.fe f value with
+      | .ok v => some (.ok (.val v))
+      | .error e => some (.error (fieldErr path k e)))
+  | .declared (.cfgList _ _ _ m) =>
+    if (envValue W m).isSome then none
+    else
+      -- ListField.to_python builds the proxy from `value or []`: null and other falsy values load as an empty list
+      (match value with
+       | .list xs => some (.ok (.val (.list xs)))
+       | .tuple xs => some (.ok (.val (.list xs)))
+       | v => if v.truthy then some (.error (.validation (joinPath path k))) else some (.ok (.val (.list []))))
+  | _ => some (.ok (.val value))
 
 mutual
   /-- `Config._set_value(key, value)` on the configuration at `path` built from schema `s` -/
@@ -279,24 +299,7 @@ mutual
       match key with
       | .str ks =>
         let k := String.ofList ks
-        -- leaf fields bound to a set environment variable are skipped; the others are decoded with to_python first
-        let decoded : Option (Except CErr Arg) :=
-          match getField s c k with
-          | .declared (.leaf f m) =>
-            if (envValue W m).isSome then none
-            else (match toPython W.fe f value with
-              | .ok v => some (.ok (.val v))
-              | .error e => some (.error (fieldErr path k e)))
-          | .declared (.cfgList _ _ _ m) =>
-            if (envValue W m).isSome then none
-            else
-              -- ListField.to_python builds the proxy from `value or []`: null and other falsy values load as an empty list
-              (match value with
-               | .list xs => some (.ok (.val (.list xs)))
-               | .tuple xs => some (.ok (.val (.list xs)))
-               | v => if v.truthy then some (.error (.validation (joinPath path k))) else some (.ok (.val (.list []))))
-          | _ => some (.ok (.val value))
-        (match decoded with
+        (match decodeEntry W s path c k value with
          | none => loadTree W fuel s path c rest doValidate n
          | some (.error e) => { cfg := c, err := some e, next := n }
          | some (.ok a) =>
@@ -461,5 +464,16 @@ mutual
       | some t, some ts => some (.dict t :: ts)
       | _, _ => none
 end
+
+end Cinco.Config
+
+namespace Cinco.Config
+open Cinco Cinco.Field
+
+/-- `config.validate(collect_errors=True)`: every field's problem, then every failing schema validator -/
+def validateCollect (W : World) (fuel : Nat) (s : Schema) (path : String) (c : Cfg) : List CErr :=
+  if !featureEnabled s c then [] else
+  (s.fields.filterMap (fun (k, f) => fieldProblem W fuel path c k f)) ++
+  (s.validators.filterMap (fun v => if schemaValidator v c then none else some (.validation path)))
 
 end Cinco.Config
